@@ -813,6 +813,11 @@ class ConcreteContext:
 
     def __init__(self, values, opts=None):
         self.values = {k: Fraction(v) for k, v in values.items()}
+        # absolute tolerance follows the magnitude of the inputs (tiny inputs
+        # must not be hidden by a fixed absolute tolerance)
+        nz = [abs(float(v)) for v in self.values.values() if v != 0 and abs(v) > Fraction(1, 10 ** 300)]
+        lo = min(nz) if nz else 1.0
+        self.ATOL = 1e-9 * min(1.0, lo) ** 2 + 1e-300
         self.opts = opts or {}
         self.claims = []
         self.notes = []
@@ -894,7 +899,7 @@ class ConcreteContext:
             return False
         if not (np.all(np.isfinite(A)) and np.all(np.isfinite(B))):
             return False
-        scale = max(1.0, float(np.max(np.abs(A), initial=0)), float(np.max(np.abs(B), initial=0)))
+        scale = max(float(np.max(np.abs(A), initial=0)), float(np.max(np.abs(B), initial=0)))
         return bool(np.all(np.abs(A - B) <= self.ATOL + self.RTOL * scale))
 
     def all_(self, conds):
